@@ -358,7 +358,7 @@ func lifeRun(e *Env) {
 			cy.bgBurst = []int{0, 0, 0, 5, 50}[g.Intn(5)]
 			cy.userBurst = []int{0, 0, 0, 5, 80}[g.Intn(5)]
 		} else {
-			cy.inBacklog = []int{0, 0, 1, 5, 20}[g.Intn(5)]
+			cy.inBacklog = []int{0, 0, 1, 5, 20, 40, 120}[g.Intn(7)]
 			// (the larger bursts fill the output queue: the foreground handler, and
 			// with it the event loop, is then blocked in a send when the cause
 			// arrives, with flood protection on in the middle of a flood delay)
